@@ -32,6 +32,8 @@ pub fn to_crate_compression(c: Codec) -> Compression {
 #[derive(Clone, Debug, PartialEq, Serialize, Deserialize)]
 pub enum Op {
 	Serialize { val: Val, pres: PresCfg, poison: Option<Poison> },
+	/// `Writer::serialize_all` over the items; it stops at the first item that fails
+	SerializeAll { items: Vec<(Val, PresCfg, Option<Poison>)> },
 	/// `bytes` schema only: a deterministic blob of `len` bytes (compact form of a large value)
 	Blob { len: u32, seed: u64, compressible: bool },
 	/// `push_serialized` of values pre-serialized by the real `to_datum`
@@ -194,6 +196,29 @@ pub fn run_writer(spec: &FileSpec, sink: &SimSink, mut observe: impl FnMut(&Step
 				match r {
 					Ok(Ok(())) => (Ok(()), None, vec![val.clone()]),
 					Ok(Err(e)) => (Err(e.to_string()), None, vec![]),
+					Err(p) => (Err("panic".into()), Some(p), vec![]),
+				}
+			}
+			Op::SerializeAll { items } => {
+				let ctxs: Vec<PresCtx> = items.iter().map(|(_, pres, poison)| PresCtx::new(&env, *pres, *poison)).collect();
+				let pulled = std::cell::Cell::new(0usize);
+				let r = catch(|| {
+					writer.serialize_all(items.iter().zip(&ctxs).map(|((v, _, _), ctx)| {
+						pulled.set(pulled.get() + 1);
+						Presented::new(v, &spec.schema, ctx)
+					}))
+				});
+				for ctx in &ctxs {
+					if ctx.poison_fired.get() {
+						step_poison.set(true);
+						run.poison_fired += 1;
+						run.poison_depths.push(ctx.poison_depth.get());
+					}
+				}
+				match r {
+					Ok(Ok(())) => (Ok(()), None, items.iter().map(|i| i.0.clone()).collect()),
+					// the items before the one that failed were accepted
+					Ok(Err(e)) => (Err(e.to_string()), None, items[..pulled.get().saturating_sub(1)].iter().map(|i| i.0.clone()).collect()),
 					Err(p) => (Err("panic".into()), Some(p), vec![]),
 				}
 			}
@@ -650,6 +675,24 @@ pub fn gen_filespec(rng: &mut Rng, p: &SpecProfile) -> FileSpec {
 				None
 			};
 			Op::Serialize { val: v, pres, poison }
+		} else if c < 9 && rng.chance(1, 3) {
+			let k = 1 + rng.usize(4);
+			let items = (0..k)
+				.map(|_| {
+					let v = val::gen_val(rng, &env, &schema, &vcfg);
+					let pres = if rng.chance(1, 2) { PresCfg::plain() } else { PresCfg::random(rng, true) };
+					let poison = if p.poison && rng.chance(1, 4) {
+						Some(Poison {
+							at_call: rng.usize(12),
+							kind: *rng.pick(&[PoisonKind::Err, PoisonKind::WrongType, PoisonKind::MissingField, PoisonKind::DupField, PoisonKind::AbortMidSeq]),
+						})
+					} else {
+						None
+					};
+					(v, pres, poison)
+				})
+				.collect();
+			Op::SerializeAll { items }
 		} else if c < 9 {
 			let k = rng.usize(4);
 			let vals: Vec<Val> = (0..k).map(|_| val::gen_val(rng, &env, &schema, &vcfg)).collect();
